@@ -444,9 +444,15 @@ hwloc_components_init(void)
   HWLOC_COMPONENTS_LOCK();
   assert((unsigned) -1 != hwloc_components_users);
   if (0 != hwloc_components_users++) {
+#ifdef HWLOC_VERIF
+    if (hwloc_verif_event) hwloc_verif_event("comp_init", hwloc_components_users, 0); /* under the mutex, after the change */
+#endif
     HWLOC_COMPONENTS_UNLOCK();
     return;
   }
+#ifdef HWLOC_VERIF
+  if (hwloc_verif_event) hwloc_verif_event("comp_init", hwloc_components_users, 1); /* first user registers the components, still under the mutex */
+#endif
 
   verboseenv = getenv("HWLOC_COMPONENTS_VERBOSE");
   hwloc_components_verbose = verboseenv ? atoi(verboseenv) : 0;
@@ -905,9 +911,15 @@ hwloc_components_fini(void)
   HWLOC_COMPONENTS_LOCK();
   assert(0 != hwloc_components_users);
   if (0 != --hwloc_components_users) {
+#ifdef HWLOC_VERIF
+    if (hwloc_verif_event) hwloc_verif_event("comp_fini", hwloc_components_users, 0); /* under the mutex, after the change */
+#endif
     HWLOC_COMPONENTS_UNLOCK();
     return;
   }
+#ifdef HWLOC_VERIF
+  if (hwloc_verif_event) hwloc_verif_event("comp_fini", hwloc_components_users, 1); /* last user unregisters the components, still under the mutex */
+#endif
 
   for(i=0; i<hwloc_component_finalize_cb_count; i++)
     hwloc_component_finalize_cbs[hwloc_component_finalize_cb_count-i-1](0);
